@@ -209,7 +209,22 @@ func runC11(c *ev.Case, ctx *lib.Ctx, al []appAVP, cc c11Case) {
 		if i == inbandPos && cc.inband >= 0 {
 			avps = append(avps, inbandNodes()...)
 		}
-		avps = append(avps, al[a].node())
+		n := al[a].node()
+		if cc.dress == 5 && n.Kind == refcodec.Grouped {
+			// shape 5: AVPs that mean something at the top level of a CER placed where they
+			// mean nothing - an Inband-Security-Id of 0 inside the Vendor-Specific-Application-Id
+			// groups, and (below) security and application ids inside an unrelated group
+			n.Kids = append(n.Kids, peer.U32(peer.InbandSec, 0))
+		}
+		avps = append(avps, n)
+	}
+	if cc.dress == 5 {
+		stray := peer.Group(284, peer.U32(peer.InbandSec, 0), peer.U32(peer.AuthApp, 4), peer.U32(peer.AcctApp, 3)) // Proxy-Info
+		if c.I%2 == 0 {
+			avps = append([]*refcodec.Node{stray}, avps...)
+		} else {
+			avps = append(avps, stray)
+		}
 	}
 	if inbandPos >= len(cc.apps) && cc.inband >= 0 {
 		avps = append(avps, inbandNodes()...)
@@ -753,7 +768,7 @@ func TestC11(t *testing.T) {
 	rec.Suite("exhaustive", len(seqs)*presence, func(c *ev.Case) {
 		si, pi := c.I/presence, c.I%presence
 		cc := c11Case{host: pi&1 == 0, realm: pi&2 == 0, inband: pi/4 - 1, inband2: -1, apps: seqs[si]}
-		cc.dress = (c.I / 12) % 5
+		cc.dress = (c.I / 12) % 6
 		if cc.inband >= 0 && (c.I/24)%3 != 0 {
 			cc.inband2 = (c.I / 72) % 2 // lists {0,0} {0,1} {1,0} {1,1}
 		}
@@ -782,7 +797,7 @@ func TestC11(t *testing.T) {
 			idx /= len(al)
 		}
 		cc := c11Case{host: pi&1 == 0, realm: pi&2 == 0, inband: pi/4 - 1, inband2: -1, apps: apps}
-		cc.dress = (c.I / 12) % 5
+		cc.dress = (c.I / 12) % 6
 		cc.nAddrs = c.I % 3
 		cc.ipv6 = (c.I/3)%2 == 1
 		c.Class("host=%v/realm=%v/inband=%d/napps=%d", cc.host, cc.realm, cc.inband, len(cc.apps))
@@ -871,7 +886,7 @@ func TestC11(t *testing.T) {
 		r := c.R
 		cc := c11Case{host: r.IntN(8) != 0, realm: r.IntN(8) != 0, inband: r.IntN(4) - 1, nAddrs: r.IntN(3), ipv6: r.IntN(2) == 0, zeroIDs: r.IntN(4) == 0}
 		cc.inbandVS = r.IntN(6) == 0
-		cc.inband2, cc.dress = -1, r.IntN(5)
+		cc.inband2, cc.dress = -1, r.IntN(6)
 		if cc.inband >= 0 && !cc.inbandVS && r.IntN(3) == 0 {
 			cc.inband2 = r.IntN(3)
 		}
